@@ -17,7 +17,7 @@ def generate(tier, wd, rng):
     mvs = mc.json_payloads("MV")
     states, gen = mc.distinct, mc.generated
     # deeper clause combinations: random walks over the full product (TLC -simulate)
-    nsim = 150 if tier == "quick" else 3000
+    nsim = 70 if tier == "quick" else 3000
     cfg2 = cfg.replace("Budget = %d" % budget, "Budget = 99")
     sim = run_tlc("MCStmt", cfg2, os.path.join(wd, "sim"), workers=4, heap="4g", young=None, timeout=3400,
                   simulate="num=%d" % nsim, depth=16, tseed=seed())
@@ -43,6 +43,9 @@ def collect(pid, tier, replay_path, prefixes, wd, rng, extra_stmts=None, per_rec
         stmts, states, gen, mvs = generate(tier, wd, rng)
         if extra_stmts:
             stmts = stmts + extra_stmts
+        # binary expression nodes are built through the named builder methods of spec/expr_methods.json
+        import exprmeth
+        for st_ in stmts: exprmeth.annotate(st_, rng, 0.7)
     cases = [{"id": i, "stmt": s} for i, s in enumerate(stmts)]
     recs, dt = replay("stmt", cases, wd)
     verdicts, vt = validate("StmtTrace", recs, os.path.join(wd, "tv"), jvms=12, cfg="SPECIFICATION TSpec\nPOSTCONDITION AllConsumed\nCHECK_DEADLOCK FALSE\n", env={"GRAMMAR": "1" if grammar else "0", "PORTABLE": "1" if portable else "0"})
